@@ -230,7 +230,7 @@ def _handler_cannot_mask(ctx, f, h: ast.ExceptHandler, label: str) -> None:
         elif isinstance(n, ast.Call):
             fn = norm(n.func)
             last = fn.split(".")[-1]
-            total = last in ("add_note", "items", "keys", "values", "exception", "error", "warning", "info", "debug", "repr", "str", "type", "format_exc", "chain", "from_iterable") or fn in ("repr", "str", "type", "len", "iter")
+            total = last in ("add_note", "items", "keys", "values", "exception", "error", "warning", "info", "debug", "repr", "str", "type", "format_exc", "chain", "from_iterable", "getLogger", "log", "critical") or fn in ("repr", "str", "type", "len", "iter", "__import__")
             if last == "format" and isinstance(n.func, ast.Attribute) and not n.args and all(k.arg for k in n.keywords):
                 # "<template>".format(name=value, ...): total when every field of the (constant) template is a
                 # supplied keyword without format specification
